@@ -89,7 +89,7 @@ TRUSTED_BASE = [
     "keeps the cached __sro__/_implied equal to it); order inside __iro__ not modelled",
     "set-level reading of the uncached registry lookup (the tie registers adapters under pairwise different names)",
 ]
-ASSUMPTIONS = ["class __bases__ are never reassigned; interface __bases__ are not changed during a history",
+ASSUMPTIONS = ["interface __bases__ are not changed during a history",
                "a class declares another class's specification only if that class was created before it "
                "(declaring a subclass's specification makes the specification graph cyclic; the real code recurses)",
                "re-basing a class (K.__bases__ = ...) is not a declaration change and lies outside the quantifier: "
@@ -399,6 +399,10 @@ def gen_case(rng, tier):
         case["builtins"] = builtins
     if observe:
         case["observe"] = observe
+    if rng.random() < 0.3:
+        # every proxy of the case is an instance of a subclass of ``super`` (plain, with extra attributes
+        # and a method, with __slots__): a super proxy all the same
+        case["supercls"] = rng.choice(["plain", "attrs", "slots"])
     return case
 
 
@@ -662,6 +666,8 @@ def replay_text(case, obs, mode):
         d = o[1]
         if d:
             L.append("directlyProvides(O[%d], %s)" % (j, ", ".join("I[%d]" % i for i in d)))
+    if case.get("supercls"):
+        L.append("class super(super): pass   # every proxy below is an instance of a subclass of super (%s)" % case["supercls"])
     L.append("# real __mro__ (class numbers): %s" % json.dumps(obs.get("mros")))
 
     def arg(a):
